@@ -116,6 +116,8 @@ def reshape(req):
         data_util.update_consumers(consumers.values(), requested_attrs)
 
         reshaper.reshape(ctx, inventory_by_rp, allocation_objects)
+        allocation.check_untouched_consumers(
+            ctx, consumers.values(), allocation_objects)
 
     def _create_allocations():
         try:
@@ -148,12 +150,6 @@ def reshape(req):
     except exception.InvalidInventory as exc:
         raise webob.exc.HTTPConflict(
             'Unable to allocate inventory: %(error)s' % {'error': exc})
-
-    # Consumers auto-created for this request that were given no
-    # allocations (an empty allocations object) must not be left behind.
-    allocation.delete_consumers(
-        [consumer for consumer in new_consumers_created
-         if not allocations[consumer.uuid]['allocations']])
 
     req.response.status = 204
     req.response.content_type = None
